@@ -70,6 +70,44 @@ def check_errb_native(p, profile='debug'):
     return None
 
 
+def intersect_guard(run, funcs, pid):
+    """the panic site of intersect_planes ('Degenerate 3-plane intersection') is reached only for linearly dependent normals (det = 0 exactly):
+    nearly parallel bisectors (close generators, thin cells) are valid inputs"""
+    mk_plane = lambda n, p: engine.make_struct('src/geometry.rs', 'Plane', n=n, p=p)
+    n = [rvec('ign%d' % k) for k in range(3)]
+    p = [rvec('igp%d' % k) for k in range(3)]
+    c = Call(run, funcs, r'^intersect_planes$', [mk_plane(n[k], p[k]) for k in range(3)], by_ref=(0, 1, 2))
+    det = to_z3(dot(n[2], cross(n[0], n[1])))
+    if not c.panics:
+        run.notes.append('%s intersect_planes has no panic path' % pid)
+    for pc, msg, pst in c.panics:
+        vv, m = run.prove('%s intersect_planes panics only if the three normals are linearly dependent (det = 0)' % pid, list(pc), det != 0, timeout=30, on_sat='caller')
+        if vv == 'sat':
+            pl = {'kind': 'intersect_guard'}
+            bad = check_intersect_guard_native(pl)
+            if bad:
+                run.violation('%s %s' % (pid, bad), engine.save_replay(pid, pl))
+            else:
+                run.suspect.append('%s intersect_planes: panic path for det != 0 in the encoding, not reproduced natively' % pid)
+    for st, x in c.outs:
+        run.prove('%s intersect_planes returns normally only for det != 0' % pid, hyps_of(st), det == 0, timeout=30, cross=False)
+
+
+def check_intersect_guard_native(p, profile='debug'):
+    """three unit normals enclosing tiny angles, and un-normalised normals as project_onto_intersection passes them"""
+    cases = []
+    for eps in (1e-3, 1e-6, 1e-9, 1e-12):
+        # det = eps^2 for n2 = n0 x n1 (|n2| = eps), as in Plane::project_onto_intersection
+        cases.append(('1 0 0  0.2 0.3 0.4   1 %r 0  0.2 0.3 0.4   0 0 %r  0.5 0.5 0.5' % (eps, eps), eps * eps))
+        cases.append(('1 0 0  0.2 0.3 0.4   0 1 0  0.2 0.3 0.4   %r 0 %r  0.5 0.5 0.5' % (0.5, eps), eps))
+    for prof in ('debug', 'release'):
+        for line, det in cases:
+            o = engine.native(['intersect_planes ' + line], prof)[0]
+            if o[0] != 'ok':
+                return 'intersect_planes panics (%s) for normals with determinant %g != 0 [%s build]' % (' '.join(o[1:6]), det, prof)
+    return None
+
+
 def right_loc(run, funcs, pid):
     """HalfSpace::right_loc: generator + shift for neighbour planes, mirror image 2 proj - loc for walls"""
     n, p = rvec('n'), rvec('p')
@@ -539,6 +577,10 @@ def _face_centroid_one(a, profile):
 
 
 def replay(d):
+    if d.get('kind') == 'intersect_guard':
+        bad = check_intersect_guard_native(d)
+        print(bad)
+        return 1 if bad else 0
     k = d['kind']
     f = {'gridmap': check_gridmap_native, 'errb': check_errb_native, 'right_loc': check_right_loc_native, 'cuboid': check_cuboid_native, 'own_image': check_own_image_native,
          'face_centroid': check_face_centroid_native}.get(k)
